@@ -22,13 +22,13 @@ _cache = {}
 _stats = None
 
 
-def fresh(source, compress, labels, consts, include_dirs=None, text=None):
-    key = hashlib.sha1(json.dumps([source, text, compress, labels, consts, include_dirs], sort_keys=True).encode()).hexdigest()
+def fresh(source, compress, labels, consts, include_dirs=None, text=None, cwd=None):
+    key = hashlib.sha1(json.dumps([source, text, compress, labels, consts, include_dirs, cwd], sort_keys=True).encode()).hexdigest()
     if key not in _cache:
         hs = str(1 + int(key[:6], 16) % 4000)
         p = subprocess.run([sys.executable, FRESH], input=json.dumps({'source': source, 'compress': compress, 'labels': labels, 'constants': consts,
-                                                                      'include_dirs': include_dirs}).encode(),
-                           stdout=subprocess.PIPE, stderr=subprocess.PIPE, env=env.repo_python_env({'PYTHONHASHSEED': hs}), cwd=env.TMP, timeout=120)
+                                                                      'include_dirs': include_dirs, 'cwd': cwd}).encode(),
+                           stdout=subprocess.PIPE, stderr=subprocess.PIPE, env=env.repo_python_env({'PYTHONHASHSEED': hs}), cwd=cwd or env.TMP, timeout=120)
         if p.returncode != 0:
             raise env.HarnessError('fresh interpreter failed: %s' % p.stderr.decode()[-400:])
         _cache[key] = json.loads(p.stdout)
@@ -166,6 +166,7 @@ class History(RuleBasedStateMachine):
         self.returned = []    # (labels dict, constants dict, snapshot of both) handed back by earlier calls
         self.reusable = []    # (program, incdirs, labels, constants) of successful fresh-dict calls that nobody scribbled into
         self.ops = []         # everything that was done, in order (this is what a replay re-executes)
+        self.outputs = []     # (object returned by an earlier call, its bytes at that time)
         self.calls = []
         self.distinct = set()
         self.fail_before_success = False
@@ -244,6 +245,8 @@ class History(RuleBasedStateMachine):
         try:
             out = self.a.assemble(src, **kw)
             got = {'ok': True, 'bytes': bytes(out).hex(), 'labels': lin, 'constants': cin}
+            self.outputs.append((out, bytes(out)))
+            self.outputs = self.outputs[-6:]
         except self.a.AssemblerError as e:
             got = {'ok': False, 'type': 'AssemblerError', 'message': e.message, 'line': getattr(e.line, 'number', None)}
         except Exception as e:
@@ -289,6 +292,8 @@ class History(RuleBasedStateMachine):
     @rule(k=st.integers(0, 50))
     def reassemble_earlier(self, k):
         key = self.calls[k % len(self.calls)][0]
+        if key[0] == 'text':
+            return self.assemble_source_text_from_a_working_directory(key[1], key[2], key[3])
         if key[2] in ('reuse', 'foreign'):
             key = (key[0], key[1], 'fresh', key[3])
         self._call(*key)
@@ -322,6 +327,43 @@ class History(RuleBasedStateMachine):
             f.write(self.pool[i])
         self.reusable = [x for x in self.reusable if x[0] != i]
         self.rewrites = getattr(self, 'rewrites', 0) + 1
+
+    @rule(where=st.sampled_from(['src', 'src2', 'defs', '.']), compress=st.booleans(), big=st.booleans())
+    def assemble_source_text_from_a_working_directory(self, where, compress, big):
+        # a program handed over as TEXT: its include is looked up relative to the working directory of the moment (src and src2
+        # hold different local.asm files, the other two places none); the reference is a fresh interpreter started there
+        text = 'include local.asm\nli x8, LOCAL_K\naddi x8, x8, LOCAL_K\n' + ('align 65536\ndb 1\n' if big else '')
+        cwd = os.path.normpath(os.path.join(self.dir, where))
+        self.ops.append(['text', where, compress, big])
+        ref = fresh(text, compress, {}, {}, None, 'text#local=%r' % (self.local_k,), cwd=cwd)
+        lin, cin = {}, {}
+        old = os.getcwd()
+        os.chdir(cwd)
+        try:
+            try:
+                out = self.a.assemble(text, compress=compress, labels=lin, constants=cin)
+                got = {'ok': True, 'bytes': bytes(out).hex(), 'labels': lin, 'constants': cin}
+                self.outputs.append((out, bytes(out)))
+            except self.a.AssemblerError as e:
+                got = {'ok': False, 'type': 'AssemblerError', 'message': e.message, 'line': getattr(e.line, 'number', None)}
+            except Exception as e:
+                got = {'ok': False, 'type': type(e).__name__, 'message': str(e), 'line': None}
+        finally:
+            os.chdir(old)
+        self.calls.append((('text', where, compress, big), got['ok']))
+        self.text_calls = getattr(self, 'text_calls', 0) + 1
+        if got != ref:
+            raise env.CaseFailure('history:%s' % ('result' if got['ok'] and ref['ok'] else 'outcome'),
+                                  'source TEXT assembled with cwd=%s after history %r gives\n  %s\nbut a fresh interpreter started there gives\n  %s' % (
+                                      where, [(k, ok) for k, ok in self.calls][:-1][-8:], json.dumps(got)[:300], json.dumps(ref)[:300]),
+                                  {'kind': 'history', 'pool': self.original, 'ops': self.ops})
+
+    @invariant()
+    def earlier_outputs_untouched(self):
+        for obj, snap in self.outputs:
+            if bytes(obj) != snap:
+                raise env.CaseFailure('history:output_aliasing', 'the object returned by an earlier call (%d bytes) was changed by a later call' % len(snap),
+                                      {'kind': 'history', 'pool': self.original, 'ops': self.ops})
 
     @rule(which=st.integers(0, 1), value=st.sampled_from([5, 7, 1234, 2047, 2048, 40000, None, None]))
     def rewrite_an_included_file(self, which, value):
@@ -374,6 +416,7 @@ class History(RuleBasedStateMachine):
                 _stats.nt(env.chash((self.pool, self.calls)))
             _stats.count('calls_reusing_dicts', getattr(self, 'count_reuse', 0))
             _stats.count('source_file_rewrites', getattr(self, 'rewrites', 0))
+            _stats.count('source_text_calls_with_a_working_directory', getattr(self, 'text_calls', 0))
             if len(self.distinct) >= 2 and self.repeated and _stats.evaluations % 5 == 0:
                 _stats.sample({'calls': [list(k) + [ok] for k, ok in self.calls[:12]], 'first_program': self.pool[0][:200] if self.pool else None})
 
@@ -519,7 +562,7 @@ def run(tier):
                 're-assemble an earlier call, assemble the same program again with the very dictionaries an earlier call filled, scribble into dictionaries handed back earlier; <= 30 steps. Every in-history result (bytes, labels, '
                 'constants or exception type+message+line) must equal the result of ONE FRESH INTERPRETER per (program, options) started with a '
                 'different PYTHONHASHSEED; dictionaries returned earlier are never mutated by later calls; module tables unchanged after every '
-                'step. Plus command-line runs of generated files under 4 hash seeds, and sibling builds (program B = program A with its label names permuted, assembled with the labels dictionary A left behind, must equal B with an empty one). non-trivial = history with >= 2 distinct programs, a '
+                'step; programs handed over as TEXT with an include relative to the working directory of the moment (reference: a fresh interpreter started in that directory), some with a 64 KiB output; objects returned by earlier calls keep their bytes. Plus command-line runs of generated files under 4 hash seeds, and sibling builds (program B = program A with its label names permuted, assembled with the labels dictionary A left behind, must equal B with an empty one). non-trivial = history with >= 2 distinct programs, a '
                 'failure before a success and a repeated call; distinct by (pool, calls)')
     return chk.finish()
 
@@ -556,6 +599,9 @@ def replay(path):
                         continue
                     m.ops = []
                     m._call(i, compress, mode, incdirs, reuse_from=rf)
+                elif op[0] == 'text':
+                    m.ops = []
+                    m.assemble_source_text_from_a_working_directory(op[1], op[2], op[3])
                 elif op[0] == 'rewrite_local':
                     _, which, value = op
                     m.set_local(which, value)
@@ -571,6 +617,7 @@ def replay(path):
                     r[1][name] = v + 1
                     r[2], r[3] = copy.deepcopy(r[0]), copy.deepcopy(r[1])
                 m.earlier_results_untouched()
+                m.earlier_outputs_untouched()
                 m.module_tables_unchanged()
         finally:
             import shutil
